@@ -36,7 +36,7 @@ Pos(s) == [k \in DOMAIN s |-> s[k] + 1]
 
 (* ----------------------------- generators ------------------------------- *)
 GenValue(ln) ==
-  CASE ln.gen = "computational" -> BasisVec(ln.dims, ln.digits)
+  CASE ln.gen = "computational" -> ProductVec(ln.dims, [k \in DOMAIN ln.digits |-> CompChar(ln.digits[k])])
     [] ln.gen = "product"       -> ProductVec(ln.dims, ln.vs)
     [] ln.gen = "ghz"           -> GHZVec(Len(ln.dims))
     [] ln.gen = "w"             -> WVec(Len(ln.dims))
@@ -219,8 +219,9 @@ CompressClauses(ln, st) ==
       nothing == NothingToTruncate(ln.method, ln.cap, ln.cutoff0, ln.ranks, a.bonds) IN
   << \* a method that documents that it needs a cap may reject max_bond=None; nothing else may raise
      <<"Returns", ok \/ (ln.cap = 0 /\ ln.method \in NeedsCap)>>,
-     <<"BondCap", (ok /\ ln.cap > 0) => /\ ln.maxbond <= ln.cap
-                                        /\ \A k \in DOMAIN ln.bonds : ln.bonds[k] <= ln.cap>>,
+     \* (ln.capped: the positions of the bonds the call compresses - all of them except for compress_site)
+     <<"BondCap", (ok /\ ln.cap > 0) => /\ (Len(ln.capped) = Len(ln.bonds)) => ln.maxbond <= ln.cap
+                                        /\ \A k \in DOMAIN ln.capped : ln.bonds[ln.capped[k]] <= ln.cap>>,
      <<"BondSizesHonest", ok => /\ ln.qbonds = ln.bonds
                                 /\ ln.maxbond = MaxOf(ln.bonds)
                                 /\ Len(ln.bonds) = L - 1>>,
